@@ -94,7 +94,20 @@ def _run_conc(obl, case, values, seed, tier, max_tries=60):
             return {"status": "raised", "exc": f"{type(e).__name__}: {e}", "tb": traceback.format_exc(limit=8),
                     "inputs": _jsonable(ctx.inputs), "failed": ["<no exception>"],
                     "witnesses": {k: bool(v) for k, v in ctx.witnesses.items() if isinstance(v, (bool, np.bool_))}}
-        failed = [lab for lab, c in ctx.posts if not c]
+        def _holds(c):
+            # clauses of T / L obligations are z3 formulas also in the concrete evaluator: decide validity under the assumptions
+            try:
+                import z3
+                if isinstance(c, z3.BoolRef):
+                    sv = z3.Solver()
+                    sv.set("timeout", 30000)
+                    sv.add(*[p for p in ctx.pre if isinstance(p, z3.BoolRef)])
+                    sv.add(z3.Not(c))
+                    return sv.check() == z3.unsat
+            except ImportError:
+                pass
+            return bool(c)
+        failed = [lab for lab, c in ctx.posts if not _holds(c)]
         wit = {k: bool(v) for k, v in ctx.witnesses.items()}
         return {"status": "fail" if failed else "pass", "failed": failed, "inputs": _jsonable(ctx.inputs),
                 "witnesses": wit, "nposts": len(ctx.posts), "evals": max(1, ctx.evals)}
